@@ -85,8 +85,13 @@ type FnTrans struct {
 	curCall    *ssa.CallCommon
 	binds      map[string]Val
 	pendingBind string
+	inlineDepth int
+	inlineCtr   map[string]map[string]int // obligation counters of inlined callees (unique names)
+	pendingGhost []AtItem // ghost-local updates to perform after the current call
+	ghostLocals map[string]string // name -> component
 	unmodelled map[ssa.Value]bool
 	atOrd      map[string]int
+	callOrdSrc map[*ssa.CallCommon]int
 	atUsed     map[int]bool
 }
 
@@ -654,10 +659,82 @@ func (tr *FnTrans) run() {
 		}
 	}
 
+	tr.ghostLocals = map[string]string{}
+	if tr.fc != nil {
+		for _, gl := range tr.fc.GhostLocals {
+			comp := "L$ghost$" + gl.Name
+			srt := ghostSort(gl.Type)
+			vc.compDecl(comp, srt)
+			n := vc.fresh(comp+"@0", srt)
+			vc.fact(sEq(n, zeroOfSort(srt)), "")
+			tr.cur.m[comp] = n
+			tr.ghostLocals[gl.Name] = comp
+		}
+	}
 	for _, b := range tr.order {
 		tr.block(b)
 	}
 	tr.exit()
+}
+
+// zeroOfSort: the zero value of a ghost sort (maps: everywhere zero).
+func zeroOfSort(srt string) string {
+	switch srt {
+	case sortInt:
+		return "0"
+	case sortBool:
+		return "false"
+	}
+	if strings.HasPrefix(srt, "(Array") {
+		_, es := splitArrSort(srt)
+		return fmt.Sprintf("((as const %s) %s)", srt, zeroOfSort(es))
+	}
+	panic(vcErrorf("ghostlocal: no zero value for sort %s", srt))
+}
+
+// afterCall performs the ghost-local updates anchored at the call that has
+// just been translated: `at call <n> <f> ghost x[q] := e` (pointwise) or
+// `ghost x := e`. The expression may use the call's bind name and the
+// callee's ghost results (<bind>_<result>), locals, and rangekey.
+func (tr *FnTrans) afterCall(items []AtItem) {
+	vc := tr.vc
+	for _, ai := range items {
+		var gname, qname string
+		if ix, ok := ai.Target.(*EIndex); ok {
+			if id, ok2 := ix.X.(*EIdent); ok2 {
+				gname = id.Name
+			}
+			if id, ok2 := ix.I.(*EIdent); ok2 {
+				qname = id.Name
+			}
+		} else if id, ok := ai.Target.(*EIdent); ok {
+			gname = id.Name
+		}
+		comp, ok := tr.ghostLocals[gname]
+		if !ok {
+			panic(vcErrorf("at %s ghost: %s is not a ghostlocal", ai.Anchor, gname))
+		}
+		srt := vc.compSort[comp]
+		ec := tr.specCtx(tr.cur, tr.entryHeap, nil)
+		at := tr.curBlock
+		heap := tr.cur
+		ec.lookup = func(name string) (Val, bool) { return tr.lookupLocal(name, at, heap) }
+		n := vc.fresh(comp+"@u", srt)
+		if qname == "" {
+			v := ec.eval(ai.E)
+			vc.fact(sEq(n, v.T), "")
+		} else {
+			ks, _ := splitArrSort(srt)
+			qv := Val{K: sortKind(ks), T: qsym("gq$" + qname), Sort: ks}
+			if qv.K == KStr {
+				qv.Typ = types.Typ[types.String]
+			}
+			ec.env[qname] = qv
+			v := ec.eval(ai.E)
+			vc.fact(fmt.Sprintf("(forall ((%s %s)) (! (= (select %s %s) %s) :pattern ((select %s %s))))", qv.T, ks, n, qv.T, v.T, n, qv.T), "")
+		}
+		tr.cur.m[comp] = n
+	}
 }
 
 // specCtx builds an evaluation context for this function's own contract.
@@ -668,6 +745,10 @@ func (tr *FnTrans) specCtx(heap, old *Heap, extra map[string]Val) *evalCtx {
 	}
 	for k, v := range tr.binds {
 		env[k] = v
+	}
+	for name, comp := range tr.ghostLocals {
+		srt := tr.vc.compSort[comp]
+		env[name] = Val{K: sortKind(srt), T: tr.vc.hget(heap, comp), Sort: srt}
 	}
 	for k, v := range extra {
 		env[k] = v
@@ -751,7 +832,7 @@ func (tr *FnTrans) block(b *ssa.BasicBlock) {
 			tr.loopHeader(li, phiEntry)
 		}
 	} else {
-		tr.reach[0] = "true"
+		tr.reach[0] = tr.curReach
 		if li != nil {
 			panic(vcErrorf("entry block is a loop header"))
 		}
@@ -841,6 +922,15 @@ func (tr *FnTrans) loopHeader(li *loopInfo, phiEntry map[*ssa.Phi]Val) {
 		}
 		if all {
 			tr.havocAll()
+			// function-private components survive havocAll; those the loop
+			// body writes must still be forgotten at the loop head
+			for _, c := range tr.loopMods[b.Index] {
+				if strings.HasPrefix(c, "L$") || strings.HasPrefix(c, "R$") {
+					if _, ok := vc.compSort[c]; ok {
+						vc.hfresh(tr.cur, c)
+					}
+				}
+			}
 		} else {
 			for _, c := range tr.loopMods[b.Index] {
 				if c == compAlloc || strings.HasPrefix(c, "D$") {
@@ -1002,6 +1092,28 @@ func (tr *FnTrans) loopCtx(li *loopInfo, override map[ssa.Value]Val, heap *Heap)
 // lookupLocal resolves a source-level local variable name at block `at`
 // through the debug references of the function.
 func (tr *FnTrans) lookupLocal(name string, at *ssa.BasicBlock, heap *Heap) (Val, bool) {
+	if name == "rangekey" {
+		// key of the current iteration of the innermost map range around `at`
+		var best *loopInfo
+		for _, li := range tr.loops {
+			if !li.blocks[at.Index] {
+				continue
+			}
+			if best == nil || len(li.blocks) < len(best.blocks) {
+				best = li
+			}
+		}
+		if best != nil {
+			for _, in := range best.header.Instrs {
+				if nx, ok := in.(*ssa.Next); ok {
+					if v, ok := tr.vals[nx]; ok && len(v.Fields) == 3 {
+						return v.Fields[1], true
+					}
+				}
+			}
+		}
+		return Val{}, false
+	}
 	refs := tr.debug[name]
 	var best *ssa.DebugRef
 	bestPos := -1
@@ -1110,14 +1222,13 @@ func (tr *FnTrans) setEdge(from, to *ssa.BasicBlock, cond string) {
 // ---------------------------------------------------------------- exit
 
 // atCall emits the `at call <n> <method> assert ...` obligations anchored at
-// the n-th call (in translation order) of a function or method with the given
+// the n-th call (in source order) of a function or method with the given
 // simple name. Locals are resolved through the debug references.
 func (tr *FnTrans) atCall(simple string) {
 	if tr.fc == nil || tr.scan {
 		return
 	}
-	tr.atOrd[simple]++
-	ord := tr.atOrd[simple]
+	ord := tr.callOrdinal(simple)
 	for k, ai := range tr.fc.At {
 		f := strings.Fields(ai.Anchor)
 		if len(f) != 3 || f[0] != "call" || f[2] != simple || f[1] != fmt.Sprint(ord) {
@@ -1131,8 +1242,12 @@ func (tr *FnTrans) atCall(simple string) {
 			tr.pendingBind = ai.Text
 			continue
 		}
+		if ai.What == "ghost" {
+			tr.pendingGhost = append(tr.pendingGhost, ai)
+			continue
+		}
 		if ai.What != "assert" {
-			panic(vcErrorf("at %s: only assert and bind are supported", ai.Anchor))
+			panic(vcErrorf("at %s: only assert, bind and ghost are supported", ai.Anchor))
 		}
 		ec := tr.specCtx(tr.cur, tr.entryHeap, nil)
 		at := tr.curBlock
@@ -1147,6 +1262,16 @@ func (tr *FnTrans) exit() {
 	if tr.fc != nil && !tr.scan {
 		for k, ai := range tr.fc.At {
 			if !tr.atUsed[k] {
+				if ai.What == "bind" {
+					// a named call that does not exist is never executed
+					// (its ghost results, if referenced, remain unknown
+					// identifiers and stop the generation)
+					if _, ok := tr.binds[ai.Text]; !ok {
+						tr.binds[ai.Text] = Val{K: KBool, T: "false", Typ: types.Typ[types.Bool]}
+					}
+					vc.assume("contract note: at " + ai.Anchor + " bind " + ai.Text + " names no call in " + tr.name + "; treated as never executed")
+					continue
+				}
 				panic(vcErrorf("at-clause anchor %q does not match any program point", ai.Anchor))
 			}
 		}
@@ -1741,10 +1866,243 @@ func (tr *FnTrans) pureBody() {
 					continue
 				}
 				cfc := tr.w.contractFor(callee)
+				if cfc == nil && tr.inlinable(callee) && pureInline(tr, callee, 0) {
+					continue
+				}
 				if cfc == nil || cfc.ModAll || cfc.ModHeap || len(cfc.Modifies) > 0 {
 					panic(vcErrorf("function with callbacks calls %s, which may write memory (%s)", callee.String(), tr.posStr(x.Pos())))
 				}
 			}
 		}
 	}
+}
+
+// callSimpleName: the name by which `at call <n> <name>` refers to a call.
+func callSimpleName(c *ssa.CallCommon) string {
+	if c.IsInvoke() {
+		return c.Method.Name()
+	}
+	if callee := c.StaticCallee(); callee != nil {
+		return callee.Name()
+	}
+	if prm, ok := c.Value.(*ssa.Parameter); ok {
+		return prm.Name()
+	}
+	return ""
+}
+
+// callOrdinal numbers the current call among the calls with the same simple
+// name in source order (position of the call's opening parenthesis).
+func (tr *FnTrans) callOrdinal(simple string) int {
+	if tr.callOrdSrc == nil {
+		tr.callOrdSrc = map[*ssa.CallCommon]int{}
+		by := map[string][]*ssa.CallCommon{}
+		for _, b := range tr.fn.Blocks {
+			for _, in := range b.Instrs {
+				if ci, ok := in.(ssa.CallInstruction); ok {
+					c := ci.Common()
+					if n := callSimpleName(c); n != "" {
+						by[n] = append(by[n], c)
+					}
+				}
+			}
+		}
+		for _, cs := range by {
+			sort.SliceStable(cs, func(i, j int) bool { return cs[i].Pos() < cs[j].Pos() })
+			for i, c := range cs {
+				tr.callOrdSrc[c] = i + 1
+			}
+		}
+	}
+	if tr.curCall != nil {
+		if o, ok := tr.callOrdSrc[tr.curCall]; ok {
+			return o
+		}
+	}
+	tr.atOrd[simple]++
+	return 1000 + tr.atOrd[simple]
+}
+
+// ---------------------------------------------------------------- inlining
+//
+// An in-repo function without a contract whose body is straight-line code
+// (no loops, defers, goroutines, closures, recursion) is translated in place
+// at its call sites instead of being treated as an unknown call: extracting
+// such a helper from a function under contract does not change what is
+// proved about that function.
+
+func (tr *FnTrans) inlinable(callee *ssa.Function) bool {
+	if callee == nil || len(callee.Blocks) == 0 || tr.inlineDepth >= 3 || !tr.w.inRepo(callee) || callee == tr.fn || len(callee.FreeVars) > 0 || callee.Recover != nil {
+		return false
+	}
+	if tr.w.contractFor(callee) != nil {
+		return false
+	}
+	// loop-free
+	state := map[int]int{}
+	var cyc bool
+	var dfs func(b *ssa.BasicBlock)
+	dfs = func(b *ssa.BasicBlock) {
+		state[b.Index] = 1
+		for _, s := range b.Succs {
+			if state[s.Index] == 1 {
+				cyc = true
+			} else if state[s.Index] == 0 {
+				dfs(s)
+			}
+		}
+		state[b.Index] = 2
+	}
+	dfs(callee.Blocks[0])
+	if cyc {
+		return false
+	}
+	for _, b := range callee.Blocks {
+		for _, in := range b.Instrs {
+			switch x := in.(type) {
+			case *ssa.Defer, *ssa.Go, *ssa.Select, *ssa.MakeClosure, *ssa.Range, *ssa.Next, *ssa.RunDefers, *ssa.Send:
+				return false
+			case *ssa.Call:
+				if x.Call.StaticCallee() == callee {
+					return false
+				}
+			}
+		}
+	}
+	return true
+}
+
+// pureInline: the body of an inlinable callee writes no memory.
+func pureInline(tr *FnTrans, fn *ssa.Function, depth int) bool {
+	if depth > 3 {
+		return false
+	}
+	for _, b := range fn.Blocks {
+		for _, in := range b.Instrs {
+			switch x := in.(type) {
+			case *ssa.Store:
+				if a, ok := x.Addr.(*ssa.Alloc); ok && !a.Heap {
+					continue
+				}
+				if fa, ok := x.Addr.(*ssa.FieldAddr); ok {
+					if a, ok := fa.X.(*ssa.Alloc); ok && !a.Heap {
+						continue
+					}
+				}
+				return false
+			case *ssa.MapUpdate:
+				return false
+			case *ssa.Call:
+				if bi, ok := x.Call.Value.(*ssa.Builtin); ok {
+					switch bi.Name() {
+					case "append", "copy", "delete", "close":
+						return false
+					}
+					continue
+				}
+				callee := x.Call.StaticCallee()
+				if callee == nil {
+					return false
+				}
+				cfc := tr.w.contractFor(callee)
+				if cfc == nil {
+					if tr.inlinable(callee) && pureInline(tr, callee, depth+1) {
+						continue
+					}
+					return false
+				}
+				if cfc.ModAll || cfc.ModHeap || len(cfc.Modifies) > 0 {
+					return false
+				}
+			}
+		}
+	}
+	return true
+}
+
+func (tr *FnTrans) inlineCall(callee *ssa.Function, args []Val) Val {
+	vc := tr.vc
+	cname := relName(callee)
+	vc.funcsUsed["inlined:"+cname] = true
+	child := &FnTrans{vc: vc, w: tr.w, fn: callee, name: tr.name + "/inl:" + cname, scan: tr.scan, inlineDepth: tr.inlineDepth + 1}
+	if callee.Pkg != nil {
+		child.pkg = callee.Pkg.Pkg
+	}
+	child.vals = map[ssa.Value]Val{}
+	child.reach = map[int]string{}
+	child.outHeap = map[int]*Heap{}
+	child.edge = map[[2]int]string{}
+	child.written = map[int]map[string]bool{}
+	if tr.inlineCtr == nil {
+		tr.inlineCtr = map[string]map[string]int{}
+	}
+	if tr.inlineCtr[cname] == nil {
+		tr.inlineCtr[cname] = map[string]int{}
+	}
+	child.counters = tr.inlineCtr[cname]
+	child.inlineCtr = tr.inlineCtr
+	child.ranges = map[ssa.Value]*rangeState{}
+	child.callOrd = map[string]int{}
+	child.atOrd = map[string]int{}
+	child.binds = map[string]Val{}
+	child.atUsed = map[int]bool{}
+	child.selStates = map[ssa.Value][]Val{}
+	child.ghostLocals = map[string]string{}
+	child.analyze()
+	if len(child.loops) > 0 {
+		panic(vcErrorf("inlining %s: loops", cname))
+	}
+	child.wrapping = tr.wrapping
+	child.entryHeap = tr.entryHeap
+	child.entryAlloc = tr.entryAlloc
+	child.cur = tr.cur
+	child.curReach = tr.curReach
+	child.curBlock = callee.Blocks[0]
+	child.paramEnv = map[string]Val{}
+	child.modComps = tr.modComps
+	child.modByComp = tr.modByComp
+	if len(args) != len(callee.Params) {
+		panic(vcErrorf("inlining %s: %d arguments for %d parameters", cname, len(args), len(callee.Params)))
+	}
+	for i, p := range callee.Params {
+		child.vals[p] = args[i]
+		child.paramEnv[p.Name()] = args[i]
+	}
+	for _, b := range child.order {
+		child.block(b)
+	}
+	if len(child.returns) == 0 {
+		// never returns normally: the rest of this path is unreachable
+		tr.fact("false")
+		rt := resultType(callee.Signature)
+		if rt == nil {
+			return Val{K: KUnit}
+		}
+		return tr.freshVal("ret$"+cname, rt)
+	}
+	var conds []string
+	var heaps []*Heap
+	for _, r := range child.returns {
+		conds = append(conds, r.cond)
+		heaps = append(heaps, r.heap)
+	}
+	// the path continues iff the callee returns
+	tr.fact(sOr(conds...))
+	tr.cur = child.mergeHeaps(conds, heaps)
+	nres := len(child.returns[0].results)
+	results := make([]Val, nres)
+	for i := 0; i < nres; i++ {
+		v := child.returns[len(child.returns)-1].results[i]
+		for j := len(child.returns) - 2; j >= 0; j-- {
+			v = child.iteVal(child.returns[j].cond, child.returns[j].results[i], v)
+		}
+		results[i] = v
+	}
+	switch nres {
+	case 0:
+		return Val{K: KUnit}
+	case 1:
+		return results[0]
+	}
+	return Val{K: KTuple, Fields: results, Typ: callee.Signature.Results()}
 }
